@@ -1,8 +1,9 @@
 (* C04 — spherical and Cartesian coordinates denote the same points.
    Statements only; each closed by `exact` of a lemma from Proofs/C04_proofs.v, followed by
    Print Assumptions.  c04_run fx: the model of the getters/populate functions/normalisation for the
-   variant fx of the seven defective code sites (Model/C04.v): c04_fixed_all = every site repaired,
-   c04_as_found = the code as it was found, c04_repo_fixes = what the current source contains
+   variant fx of the seven defective code sites (Model/C04.v; the node-longitude site has two
+   alternative repairs): c04_all_fixed fx = true = every site repaired, c04_as_found = the code as
+   it was found, c04_repo_fixes = what the current source contains
    (Gen/C04_variant.v, regenerated from /repo by harness/translators/c04_variant.py on every run). *)
 From Coq Require Import Reals List.
 From Verif Require Import Base C04 C04_proofs C04_variant.
@@ -87,35 +88,36 @@ Print Assumptions C04_checker_sound.
 (* History theorem, symbolic form: every well-formed source, every finite history of accesses of
    the coordinate properties and normalize_cartesian_coordinates: every group the repaired Grid
    holds is well-united ... *)
-Theorem C04_provenance_units : forall c ops,
-  c04_wf_case c = true -> c04_state_ok c (c04_run c04_fixed_all c ops) = true.
+Theorem C04_provenance_units : forall fx c ops,
+  c04_all_fixed fx = true -> c04_wf_case c = true -> c04_state_ok c (c04_run fx c ops) = true.
 Proof. exact c04_provenance_sym. Qed.
 Print Assumptions C04_provenance_units.
 
 (* ... at every intermediate state (what each access reported) as well *)
-Theorem C04_provenance_every_report : forall c ops,
-  c04_wf_case c = true ->
-  Forall (fun s => c04_state_ok c s = true) (c04_trace c04_fixed_all c (c04_init c) ops).
+Theorem C04_provenance_every_report : forall fx c ops,
+  c04_all_fixed fx = true -> c04_wf_case c = true ->
+  Forall (fun s => c04_state_ok c s = true) (c04_trace fx c (c04_init c) ops).
 Proof. exact c04_every_report_sym. Qed.
 Print Assumptions C04_provenance_every_report.
 
 (* History theorem, semantic form: lon/lat reported are in [-180,180] x [-90,90] and denote exactly
    the element's direction; Cartesian coordinates are a positive multiple of it, of unit length
    whenever the source did not supply them *)
-Theorem C04_provenance : forall c en ops,
-  c04_wf_case c = true -> c04_env_ok c en ->
-  (forall k l, c04_get_ll (c04_run c04_fixed_all c ops) k = Some l -> forall i, (i < en_count en k)%nat ->
+Theorem C04_provenance : forall fx c en ops,
+  c04_all_fixed fx = true -> c04_wf_case c = true -> c04_env_ok c en ->
+  (forall k l, c04_get_ll (c04_run fx c ops) k = Some l -> forall i, (i < en_count en k)%nat ->
       -180 <= fst (c04_sem_ll en l i) <= 180 /\ -90 <= snd (c04_sem_ll en l i) <= 90 /\
       c04_ll2xyz (c04_map_ll c04_deg2rad (c04_sem_ll en l i)) = en_dir en k i) /\
-  (forall k x, c04_get_xyz (c04_run c04_fixed_all c ops) k = Some x -> forall i, (i < en_count en k)%nat ->
+  (forall k x, c04_get_xyz (c04_run fx c ops) k = Some x -> forall i, (i < en_count en k)%nat ->
       exists r, 0 < r /\ c04_sem_xyz en x i = c04_scale r (en_dir en k i) /\
                 (c04_has_xyz (c04_prov_of c k) = false -> r = 1)).
 Proof. exact c04_provenance_sem. Qed.
 Print Assumptions C04_provenance.
 
 (* directly after normalize_cartesian_coordinates every Cartesian group has unit length *)
-Theorem C04_normalize_all_unit : forall c ops,
-  c04_wf_case c = true -> c04_state_unit c (c04_run c04_fixed_all c (ops ++ [ONormalize])) = true.
+Theorem C04_normalize_all_unit : forall fx c ops,
+  c04_all_fixed fx = true -> c04_wf_case c = true ->
+  c04_state_unit c (c04_run fx c (ops ++ [ONormalize])) = true.
 Proof. exact c04_normalize_unit_sym. Qed.
 Print Assumptions C04_normalize_all_unit.
 
@@ -124,7 +126,8 @@ Print Assumptions C04_normalize_all_unit.
 (* each of the seven sites alone breaks the property, whatever the state of the other six
    (c04_bad: a well-formed source and a history after which a reported group is not well-united,
    or a Cartesian group is not unit right after normalisation) *)
-Theorem C04_node_lon_refuted : forall fx, fx_node_wrap fx = false -> c04_bad fx c04_case_xyz_nodes [OGetLL KNode].
+Theorem C04_node_lon_refuted : forall fx, fx_node_wrap fx = false -> fx_node_after fx = false ->
+  c04_bad fx c04_case_xyz_nodes [OGetLL KNode].
 Proof. exact c04_node_lon_refuted. Qed.
 Print Assumptions C04_node_lon_refuted.
 
